@@ -69,6 +69,7 @@ type env struct {
 	m       *h2sm.Machine
 	tag     int
 	contTag int // tag of the HEADERS frame that started the pending header block
+	only    map[string]bool
 }
 
 type letter struct {
@@ -277,7 +278,8 @@ type hctl struct {
 type config struct {
 	name       string
 	maxStreams int
-	prefix     []string // letters played before the explored part (not counted in the depth)
+	prefix     []string        // letters played before the explored part (not counted in the depth)
+	only       map[string]bool // restricted alphabet (nil = all letters)
 }
 
 type stepRec struct {
@@ -348,7 +350,7 @@ func runHistory(t *testing.T, cfg config, forced []string, depth int, c *mc.Choo
 		srv := &http2.Server{MaxConcurrentStreams: uint32(cfg.maxStreams), MaxReadFrameSize: maxFrame}
 		conn := bubble.StartH2(srv, &http.Server{}, handler)
 		m := h2sm.New(h2sm.Config{MaxStreams: cfg.maxStreams, MaxFrameSize: maxFrame})
-		x := &env{m: m}
+		x := &env{m: m, only: cfg.only}
 		var cparse h2wire.Parser
 
 		observe := func(rec *stepRec) {
@@ -526,12 +528,16 @@ func lastClass(r result) string {
 
 func enabled(x *env) []int {
 	var en []int
+	only := x.only
 	if x.m.Murky {
 		return nil // the RFCs do not define the state after an under-answered connection-fatal frame
 	}
 	for i := range alpha {
 		l := &alpha[i]
 		if x.m.Dead && !l.probe {
+			continue
+		}
+		if only != nil && !only[l.name] {
 			continue
 		}
 		ok := false
@@ -605,22 +611,50 @@ type phase struct {
 	prune bool // expand one representative history per reference state (and remaining depth)
 }
 
+// coreLetters: the letters that move the stream state machine, for the deep pruned phase.
+var coreLetters = []string{"H_NEW_ES_NOW", "H_NEW_ES_HOLD", "H_NEW_HOLD", "H_NEW_NOW", "H_CLOSED", "H_TRAILERS_ES", "H_HALFCLOSED", "H_NEW_NOEH", "CONT_EH",
+	"H_NEW_UPPER", "H_NEW_CONNHDR", "D_OPEN", "D_OPEN_ES", "D_HALFCLOSED", "D_CLOSED", "R_OPEN", "R_HALFCLOSED", "R_CLOSED", "W_OPEN", "W_CLOSED", "P_SELF", "S_ACK", "GOAWAY", "RELEASE"}
+
 func plan() []phase {
 	afterSettings := func(n int) config { return config{name: fmt.Sprintf("max%d", n), maxStreams: n, prefix: []string{"S_EMPTY"}} }
+	core := func(n int) config {
+		c := afterSettings(n)
+		c.name += "/core"
+		c.only = map[string]bool{}
+		for _, l := range coreLetters {
+			if _, ok := alphaIdx[l]; !ok {
+				panic("unknown core letter " + l)
+			}
+			c.only[l] = true
+		}
+		return c
+	}
+	if p := os.Getenv("C13_PLAN"); p != "" { // experiments: "core|full:<maxStreams>:<depth>:<prune 0|1>"
+		f := strings.Split(p, ":")
+		n, _ := strconv.Atoi(f[1])
+		d, _ := strconv.Atoi(f[2])
+		c := afterSettings(n)
+		if f[0] == "core" {
+			c = core(n)
+		}
+		return []phase{{cfg: c, depth: d, prune: f[3] == "1"}}
+	}
 	bare := config{name: "first-frame", maxStreams: 2}
 	if ev.Thorough() {
 		return []phase{
 			{cfg: bare, depth: 3},
 			{cfg: afterSettings(2), depth: 4},
 			{cfg: afterSettings(1), depth: 4},
-			{cfg: afterSettings(2), depth: 5, prune: true},
-			{cfg: afterSettings(1), depth: 5, prune: true},
+			{cfg: core(2), depth: 7, prune: true},
+			{cfg: core(1), depth: 7, prune: true},
 		}
 	}
 	return []phase{
 		{cfg: bare, depth: 2},
 		{cfg: afterSettings(2), depth: 3},
 		{cfg: afterSettings(1), depth: 3},
+		{cfg: core(2), depth: 5, prune: true},
+		{cfg: core(1), depth: 5, prune: true},
 	}
 }
 
@@ -775,7 +809,7 @@ func report(t *testing.T, rep *ev.Report, ph phase, name string, forced []string
 		var r result
 		o, _ := mc.Replay(f.Choices, func(c *mc.Chooser) mc.Outcome {
 			var out mc.Outcome
-			r, out = runHistory(t, ph.cfg, forced, depth, c, false)
+			r, out = runHistory(t, ph.cfg, forced, min(depth, len(f.Choices)), c, false) // exactly the letters of the finding (a pruned history is shorter than the phase depth)
 			return out
 		})
 		if o.Obs == f.Obs {
